@@ -13,6 +13,7 @@ static int p_sym[P_MAXTOK];           /* symbol index of each token (concrete pe
 static int p_code[P_MAXTOK];          /* code delivered to yaep (may be symbolic) */
 static long p_attr[P_MAXTOK];         /* attribute delivered (symbolic) */
 static int p_rd;
+static int p_map[O_MAXN + 1];            /* oracle sequence index -> original token index */
 
 /* input family ALL(len): exact length `len' (job parameter), every token kind chosen by the solver */
 static void p_input_all (int len, int first)
@@ -27,7 +28,7 @@ static void p_input_all (int len, int first)
       p_attr[i] = sx_long ("attr");
     }
 }
-static void p_to_seq (void) { int i; seqn = p_n; for (i = 0; i < p_n; i++) seq[i] = p_sym[i]; }
+static void p_to_seq (void) { int i; seqn = p_n; for (i = 0; i < p_n; i++) { seq[i] = p_sym[i]; p_map[i] = i; } }
 
 static int p_read_token (void **attr)
 {
@@ -57,6 +58,7 @@ struct pres { int rc, amb; struct yaep_tree_node *root; };
 
 /* one parse of the current input with a fresh grammar object */
 static struct grammar *p_g;
+static int p_dbg, p_raw_la, p_use_raw_la;   /* optional: debug level and unclamped lookahead argument */
 static void p_run (const struct pconf *c, int strict, struct pres *r)
 {
   int drc;
@@ -64,7 +66,8 @@ static void p_run (const struct pconf *c, int strict, struct pres *r)
   sx_assume (p_g != NULL);
   drc = g_define (p_g, strict);
   sx_assert (drc == 0, "catalogue grammar accepted");
-  yaep_set_lookahead_level (p_g, c->la);
+  yaep_set_lookahead_level (p_g, p_use_raw_la ? p_raw_la : c->la);
+  if (p_dbg) yaep_set_debug_level (p_g, p_dbg);
   yaep_set_one_parse_flag (p_g, c->one);
   yaep_set_cost_flag (p_g, c->cost);
   yaep_set_error_recovery_flag (p_g, c->rec);
@@ -135,7 +138,7 @@ static int t_match (struct yaep_tree_node *n, int t, int depth)
     case OT_ERR: return n->type == YAEP_ERROR;
     case OT_TERM:
       if (n->type != YAEP_TERM) return 0;
-      return (n->val.term.code == p_code[o->pos]) & ((long) n->val.term.attr == p_attr[o->pos]);
+      return (n->val.term.code == p_code[p_map[o->pos]]) & ((long) n->val.term.attr == p_attr[p_map[o->pos]]);
     default:
       if (n->type != YAEP_ANODE) return 0;
       if (strcmp (n->val.anode.name, G.rule[o->rule].anode) != 0) return 0;
@@ -210,7 +213,7 @@ static int d_match (int d, int t)
     {
     case OT_NIL: return n->type == YAEP_NIL;
     case OT_ERR: return n->type == YAEP_ERROR;
-    case OT_TERM: if (n->type != YAEP_TERM) return 0; return (n->val.term.code == p_code[o->pos]) & ((long) n->val.term.attr == p_attr[o->pos]);
+    case OT_TERM: if (n->type != YAEP_TERM) return 0; return (n->val.term.code == p_code[p_map[o->pos]]) & ((long) n->val.term.attr == p_attr[p_map[o->pos]]);
     default:
       if (n->type != YAEP_ANODE || strcmp (n->val.anode.name, G.rule[o->rule].anode) != 0 || D->nch != o->nch) return 0;
       r = 1;
@@ -249,4 +252,43 @@ static void p_observe_errors (void)
   for (i = 0; i < p_nerr && i < P_MAXERR; i++)
     { sx_observe ("err", p_err[i]); sx_observe ("ign", p_ign[i]); sx_observe ("rec", p_rec[i]); sx_observe ("erra", p_err_attr[i]); sx_observe ("igna", p_ign_attr[i]); sx_observe ("reca", p_rec_attr[i]); }
 }
+
+/* input family NEAR(k): a listed (near-)sentence with k symbolic edits (substitute a token kind, or
+   delete the token) at symbolic positions */
+static const char *const near_bases[][4] = {
+  /* G1 */ { "aaaaaaaa", "abababab", "aaaabaaa", 0 }, /* G2 */ { "aaaaaaab", "aaab", 0, 0 }, /* G3 */ { "a+a*a+a", "a*a+a*a+a", "a+a+a+a", 0 },
+  /* G4 */ { "aba", "ab", 0, 0 }, /* G5 */ { "aaabbb", "aabb", "aaaabbb", 0 }, /* G6 */ { "bbbbbba", "bba", 0, 0 }, /* G7 */ { "abbaabba", "abaaba", "aabbbbaa", 0 },
+  /* G8 */ { "iixeixex", "iiixexex", 0, 0 }, /* G9 */ { "(a+a)+(a+a)", "(a+(a+a))+a", "a+(a+a+a", 0 }, /* G10 */ { "a;a;a;a;", "a;bbb;a;bbb;", "a;bb;a;", "a;ab;a;a;" },
+  /* G11 */ { "axy", "axz", 0, 0 }, /* G12 */ { "xabcyabd", "xabcxabc", "xacyad", "xabcyad" }, /* G13 */ { "aab", "ba", "cca", "ca" }, /* G14 */ { "aaaaaa", "baaaa", "bbaaa", 0 },
+  /* G15 */ { "(a+a)*a+a", "a*(a+a)*(a+a)", "a+a*a+a*a+a", "(a+a*(a+a))" }, /* G16 */ { "a;a;a;a;", "a;ba;a;", 0, 0 }, /* G17 */ { "abcd", "bcacdd", 0, 0 }, /* G18 */ { "aa", "a", 0, 0 },
+};
+static void p_input_near (int gi, int base, int k)
+{
+  const char *b = near_bases[gi][base]; int i, j, e, nt = g_nterm ();
+  sx_assume (b != NULL);
+  p_n = 0;
+  for (i = 0; b[i]; i++)
+    {
+      for (j = 0; j < G.nsym; j++) if (G.sym[j].kind == SK_TERM && G.sym[j].name[0] == b[i] && G.sym[j].name[1] == 0) break;
+      sx_assume (j < G.nsym);
+      p_sym[p_n++] = j;
+    }
+  for (e = 0; e < k; e++)
+    {
+      int pos = sx_choice ("pos", p_n), sub = sx_choice ("sub", nt + 1);
+      if (sub == nt) { for (i = pos; i + 1 < p_n; i++) p_sym[i] = p_sym[i + 1]; p_n--; }
+      else p_sym[pos] = g_term (sub);
+    }
+  for (i = 0; i < p_n; i++) { p_code[i] = G.sym[p_sym[i]].code; p_attr[i] = sx_long ("attr"); }
+}
+/* common prologue: catalogue grammar + ALL(len) or NEAR(k) input from the job parameters */
+static void p_setup (void)
+{
+  int gi = (int) sx_param ("grammar", 0), len = (int) sx_param ("len", 2), first = (int) sx_param ("first", -1), base = (int) sx_param ("base", -1);
+  g_select (&catalogue[gi]);
+  if (base >= 0) p_input_near (gi, base, (int) sx_param ("edits", 1));
+  else p_input_all (len, first);
+  p_to_seq ();
+}
+static void p_witness (void) { if (sx_param ("witness", 0)) sx_assert (0, "witness"); }
 #endif
